@@ -179,7 +179,7 @@ theorem romneg_type3 (hc : EncCls c) (hk : EncCfg c cfg) (hf : c.family = some .
     simpa [hc.hsign, hf] using ht
   have := romenc_imageType hc hk
   rw [hty] at this
-  exact this
+  exact (rom_type _).trans this
 
 theorem tamper_rejected_encrypted_header (h : Hyp co env c cfg signer) (hf : c.family = some .encrypted) (ht : signedTypeOk c = true)
     (rkth : Bytes) (certs : List (Nat × Nat)) (table : List Bytes)
